@@ -172,6 +172,47 @@ pub fn specs() -> Vec<PropSpec> {
             assumptions: CUT_ASSUMPTIONS,
         },
         PropSpec {
+            id: "C09",
+            parts: &[("c09cuts", 32, 480), ("c09queue", 1600, 60000)],
+            level: "fault_enumeration",
+            tags: &["C09", "LIVENESS"],
+            rule: "Two kinds of evaluation. (1) c09cuts: one (operation, \
+                reached state) pair as for C08, but half of the prefixes \
+                leave the follow-up tasks of their last operations \
+                pending; the unit (operation plus the background tasks it \
+                triggers, run one at a time by the real scheduler) is cut \
+                by a process crash before every storage or file-system \
+                mutation k (all, or a seeded sample of 40), which \
+                includes every instant at which a task is pending or \
+                exactly one is running. After restart all due tasks are \
+                run (the request is NOT submitted again) and then: no \
+                task is left in the running state, every recurring task \
+                and one parent synchronisation per CA and parent is \
+                queued, every CA's stored object set is at the \
+                repository (unless the difference is the uncommitted \
+                change itself), the rsync tree and the RRDP snapshot \
+                equal the repository content and all RRDP files named by \
+                the notification exist with the stated hashes, no CA has \
+                unsent requests for a live parent that it did not have \
+                without the fault, and no parent has a key in use that \
+                its child no longer has. The fault-free twin must pass \
+                the same checks. (2) c09queue: the real TaskQueue on a \
+                disk or memory store driven by a seeded sequence of \
+                20-80 schedule / schedule-and-finish / schedule-if-missing \
+                / claim / finish / reschedule / clock-advance / restart \
+                operations (restart with 0, 1, 2 and more tasks running) \
+                against a reference model; after every operation the \
+                stored pending and running entries must equal the \
+                model's: claim hands out an earliest due task and only a \
+                due task, scheduling keeps the earlier time, \
+                if-missing respects pending and running entries, restart \
+                moves every running task back to pending. \
+                distinct_nontrivial counts distinct cut triples \
+                (operation kind | mutation site class | crash) plus \
+                distinct queue operation logs.",
+            assumptions: CUT_ASSUMPTIONS,
+        },
+        PropSpec {
             id: "C05",
             parts: &[("c05", 480, 6000)],
             level: "exploration",
@@ -238,6 +279,21 @@ pub fn run_profile(
     }
     if let Some(profile) = crate::cuts::profile(name) {
         return crate::cuts::run_pair(seed, &profile)
+    }
+    if name == "c09queue" {
+        let res = std::thread::Builder::new()
+            .stack_size(16 * 1024 * 1024)
+            .spawn(move || crate::c09::run_queue(seed))
+            .expect("spawn").join();
+        return match res {
+            Ok(report) => report,
+            Err(p) => RunReport {
+                seed,
+                profile: name.to_string(),
+                harness_error: Some(crate::util::panic_message(&p)),
+                ..Default::default()
+            }
+        }
     }
     RunReport {
         seed,
